@@ -5,6 +5,8 @@ CONSTANTS
   FixLeave = FALSE
   FixWrap = FALSE
   MaxTry = 10
+  TrackCov = FALSE
+  Goal = "none"
   MCLayout <- DummyLay
   InitMembers = {}
   Joiners = {}
